@@ -30,14 +30,13 @@ def Grid.T (g : Grid) : Nat := g.pts.length
 
 inductive GridError
   | overlap        -- ValueError('Overlapping time intervals')
-  | emptyCoarse    -- ValueError: `min` of an empty array (coarse interval without fine step)
   | index          -- IndexError (`ref.Dt[myI]` with a reference grid whose `I` is not `0..T-1`)
   | assertion      -- failed `assert`
   | length         -- ValueError: length mismatch of an already gridded array
   deriving Repr, DecidableEq, Inhabited
 
 def GridError.toString : GridError → String
-  | .overlap => "overlap" | .emptyCoarse => "empty-coarse" | .index => "index"
+  | .overlap => "overlap" | .index => "index"
   | .assertion => "assert" | .length => "length"
 
 /-- `pd.date_range(start, end, freq)` for a tick frequency: `start, start+step, … ≤ stop` -/
@@ -90,7 +89,9 @@ def Grid.restrict (g : Grid) (s e : Int) : Grid :=
   { pts := sel m g.pts, idx := sel m g.idx, dt := sel m g.dt, Dt := sel m g.Dt, df := sel m g.df }
 
 /-- coarse restricted grid.  `cuts` = `date_range(start, end, freq)`; one coarse step per consecutive
-    pair of cuts: `I` = smallest reference index of its minor steps, summed `dt`; `Dt`, point and
+    pair of cuts THAT CONTAINS A FINE STEP of the reference (a pair without any is skipped:
+    `if not I.any(): continue` - the asset's own window reaches beyond the optimisation horizon):
+    `I` = smallest reference index of its minor steps, summed `dt`; `Dt`, point and
     discount factor are read from the reference arrays AT POSITION `I` (the code indexes with the index
     value; for a top-level or re-based reference grid position and value coincide). -/
 structure CoarseGrid where
@@ -112,23 +113,26 @@ structure CoarseCell where
 def dfAt (g : Grid) (i : Nat) : Option (Option Rat) :=
   if g.df.isEmpty then some none else (g.df[i]?).map some
 
-def coarseCell (g : Grid) (a b : Int) : Except GridError CoarseCell :=
+/-- one pair of cuts `[a, b)`: `.ok none` = no fine step of the reference inside, the pair is skipped
+    (the mask is tested through the selected indices: for a grid whose `idx` is as long as `pts`, as every
+    grid made by the constructors is, `sel mask idx = []` says exactly `not I.any()`) -/
+def coarseCell (g : Grid) (a b : Int) : Except GridError (Option CoarseCell) :=
   match sel (g.mask a b) g.idx with
-  | [] => .error .emptyCoarse
+  | [] => .ok none
   | i :: is =>
     match g.Dt[is.foldl min i]?, g.pts[is.foldl min i]?, dfAt g (is.foldl min i) with
     | some D, some p, some f =>
-      .ok { I := is.foldl min i, minor := i :: is, pt := p, dt := (sel (g.mask a b) g.dt).sum, Dt := D, df := f }
+      .ok (some { I := is.foldl min i, minor := i :: is, pt := p, dt := (sel (g.mask a b) g.dt).sum, Dt := D, df := f })
     | _, _, _ => .error .index
 
 def coarseCells (g : Grid) : List Int → Except GridError (List CoarseCell)
   | a :: b :: rest =>
     match coarseCell g a b with
     | .error e => .error e
-    | .ok c =>
+    | .ok oc =>
       match coarseCells g (b :: rest) with
       | .error e => .error e
-      | .ok more => .ok (c :: more)
+      | .ok more => .ok (match oc with | none => more | some c => c :: more)
   | _ => .ok []
 
 def Grid.coarsen (g : Grid) (cuts : List Int) : Except GridError CoarseGrid :=
